@@ -923,6 +923,12 @@ static void* reb_simulation_integrate_raw(void* args){
 
 
 enum REB_STATUS reb_simulation_integrate(struct reb_simulation* const r, double tmax){
+    if (isnan(tmax)){
+        // All comparisons with NaN are false: the loop below would integrate backwards forever.
+        reb_simulation_error(r,"The final time tmax passed to integrate is NaN.");
+        r->status = REB_STATUS_GENERIC_ERROR;
+        return r->status;
+    }
     struct reb_thread_info thread_info = {
         .r = r,
         .tmax = tmax, 
